@@ -258,7 +258,7 @@ def run_history(seed):
     viol = []
     stats = {'steps': 0, 'invalid_rows': 0, 'dup_rows': 0, 'appeared': 0, 'vanished': 0, 'loc_changes': 0, 'token_only_steps': 0,
              'token_maps_compared': 0, 'replica_checks': 0, 'event_triggers': 0, 'stale_carryover': 0, 'no_change_steps': 0,
-             'token_change_steps': 0, 'hosts_compared': 0}
+             'token_change_steps': 0, 'hosts_compared': 0, 'forced': 0}
     steps_log = []
     with env:
         lbp, lis = RecPolicy(), RecListener()
@@ -276,7 +276,7 @@ def run_history(seed):
                 cur['snap'] = gen.render()
                 lbp.rec, lis.rec = [], []
                 served0 = cur['served']
-                trig = rng.choice(['refresh_nodes', 'refresh_nodes', 'control', 'event-topology', 'event-status'])
+                trig = rng.choice(['refresh_nodes', 'refresh_nodes', 'refresh_nodes-forced', 'control', 'event-topology', 'event-status'])
                 if trig.startswith('event'):
                     stats['event_triggers'] += 1
                     if trig == 'event-topology':
@@ -289,6 +289,9 @@ def run_history(seed):
                 elif trig == 'control':
                     if not cluster.control_connection.refresh_node_list_and_token_map():
                         raise RuntimeError("refresh_node_list_and_token_map returned False")
+                elif trig == 'refresh_nodes-forced':
+                    stats['forced'] += 1
+                    cluster.refresh_nodes(force_token_rebuild=True)
                 else:
                     cluster.refresh_nodes(force_token_rebuild=False)
                 env.world.settle()
@@ -374,7 +377,10 @@ def run_history(seed):
                     stats['token_only_steps'] += 1
                 wit_tm = dict(wit, token_map=sorted(obs_tm.items()) if obs_tm is not None else None, expected=sorted(exp_tm.items()))
                 if obs_tm != exp_tm:
-                    if not membership_changed and not tokens_changed:
+                    if trig == 'refresh_nodes-forced':
+                        viol.append(('forced-rebuild-left-token-map-different-from-snapshot', 'refresh_nodes(force_token_rebuild=True): ownership %r, snapshot %r' % (
+                            sorted(obs_tm.items()) if obs_tm is not None else None, sorted(exp_tm.items())), wit_tm))
+                    elif not membership_changed and not tokens_changed:
                         stats['stale_carryover'] += 1              # nothing changed: the statement asks for no rebuild here
                     elif not membership_changed and not peer_loc_change and obs_tm == prev_obs_tm:
                         viol.append(('token-change-without-membership-change-not-rebuilt',
@@ -419,8 +425,10 @@ def run(ctx):
     n = ctx.scale(100000, 60000)
     budget = 40 if ctx.quick else 420
     base = ctx.seed * 1000003 + (ctx.worker or 0) * 100003
+    import time
+    t_start = time.time()          # the budget counts from here (imports can be slow on a loaded machine); a minimum is always run
     for i in range(n):
-        if ctx.time_left(budget) < 0:
+        if i >= 150 and time.time() - t_start > budget:
             ctx.note("stopped by time budget after %d histories" % i)
             break
         seed = base + i
@@ -441,7 +449,7 @@ def run(ctx):
                      ("steps_with_token_change_only", 'token_only_steps'), ("steps_with_token_change", 'token_change_steps'),
                      ("steps_without_change", 'no_change_steps'), ("token_maps_compared", 'token_maps_compared'),
                      ("replica_lookups_compared", 'replica_checks'), ("refreshes_provoked_by_pushed_event", 'event_triggers'),
-                     ("stale_token_map_carried_over_unchanged_step", 'stale_carryover'), ("host_records_compared", 'hosts_compared')):
+                     ("stale_token_map_carried_over_unchanged_step", 'stale_carryover'), ("host_records_compared", 'hosts_compared'), ("forced_rebuilds", 'forced')):
             ctx.count(k, stats[v])
         if info['peers_v2']:
             ctx.count("histories_peers_v2")
